@@ -65,6 +65,29 @@ func factsMisc() {
 		tracksWritten(ap))
 	emitStr("reloaderNoReloadCond", "pkg/reloader/reloader.go apply: the condition under which nothing is reloaded",
 		firstIfCond(body(ap), "forceReload"))
+
+	// ---- C48: what the chunk iterator does with a chunk that loses all its samples
+	f = parse("pkg/compactv2/modifiers.go")
+	emitStr("rewriteEmptyChunkAction", "pkg/compactv2/modifiers.go delChunkSeriesIterator.Next: last statement of the branch `p.currDelIter.Next() == chunkenc.ValNone`",
+		emptyChunkAction(fn(f, "delChunkSeriesIterator", "Next")))
+}
+
+// emptyChunkAction: the last statement of the branch of delChunkSeriesIterator.Next taken when the
+// deleted iterator of a chunk yields no sample at all.
+func emptyChunkAction(fd *ast.FuncDecl) string {
+	res := "unknown"
+	if fd == nil || fd.Body == nil {
+		return res
+	}
+	ast.Inspect(fd.Body, func(n ast.Node) bool {
+		s, ok := n.(*ast.IfStmt)
+		if ok && strings.Contains(text(s.Cond), "p.currDelIter.Next() == chunkenc.ValNone") && len(s.Body.List) > 0 {
+			res = text(s.Body.List[len(s.Body.List)-1])
+			return false
+		}
+		return true
+	})
+	return res
 }
 
 func tracksWritten(fd *ast.FuncDecl) string {
